@@ -560,9 +560,10 @@ fn models(tier: Tier) -> Vec<(String, Arc<M>, Vec<Plan>)> {
                 m,
                 vec![
                     Plan::Full { depth: 5 },
-                    Plan::Dev { k: 4, depth: 14, default: Arc::new(move |_| d) },
-                    Plan::Dev { k: 3, depth: 40, default: alt },
-                    Plan::Dev { k: 3, depth: 40, default: alt5 },
+                    Plan::Dev { k: 3, depth: 14, default: Arc::new(move |_| d) },
+                    Plan::Dev { k: 3, depth: 26, default: alt.clone() },
+                    Plan::Dev { k: 2, depth: 40, default: alt },
+                    Plan::Dev { k: 2, depth: 40, default: alt5 },
                 ],
             ));
             let m = Arc::new(M::new(3, set, 2));
